@@ -88,6 +88,8 @@ impl WriteCircuitBreaker {
                     // Transition to half-open to test recovery; this request is itself a
                     // probe and counts against the half-open limit
                     self.transition_to_half_open();
+                    #[cfg(sierra_db_sierradb_verif)]
+                    sierradb::verif::point("cb.allow.inc_calls", &[]);
                     let current_calls = self.half_open_call_count.fetch_add(1, Ordering::AcqRel);
                     current_calls < self.half_open_max_calls
                 } else {
